@@ -160,7 +160,13 @@ def run_check(pm, prop, tier, verbose):
     native_reports = []
     native_fail = []
     if hasattr(pm, "native"):
-        for rep in pm.native(tier, seed):
+        ntier = tier
+        if tier == "quick" and undecided_funcs and getattr(pm, "DEEP_FALLBACK", False):
+            # the proof could not be attempted for some function (code left the verified subset or the contract
+            # no longer lines up): compensate with a deeper bounded exploration of the real code
+            ntier = "deep"
+            notes.append("proof undecided for " + ", ".join(f for f, _ in undecided_funcs) + ": bounded native exploration deepened (tier deep)")
+        for rep in pm.native(ntier, seed):
             native_reports.append({k: v for k, v in rep.items() if k != "failures"})
             native_fail.extend(rep.get("failures", []))
 
